@@ -23,7 +23,7 @@ let parse_case toks =
 let model line =
   let (op, a, b) = parse_case (split_ws line) in
   match op with
-  | "I" -> (match r_intersect a b with None -> "0" | Some r -> pr_list [r])
+  | "I" | "J" | "K" -> (match r_intersect a b with None -> "0" | Some r -> pr_list [r])
   | "S" -> if r_intersects a b then "1" else "0"
   | "C" -> if r_contains a b then "1" else "0"
   | "A" -> pr_list (r_add a b)
@@ -35,8 +35,8 @@ let oracle line =
     let (op, a, b) = parse_case (split_ws c) in
     let obs = List.map int_of_string (split_ws o) in
     let ok = match op, obs with
-      | "I", [0] -> intersect_checkb a b None
-      | "I", [1; t; l; h; w] -> intersect_checkb a b (Some (rect_of [t; l; h; w]))
+      | ("I" | "J" | "K"), [0] -> intersect_checkb a b None
+      | ("I" | "J" | "K"), [1; t; l; h; w] -> intersect_checkb a b (Some (rect_of [t; l; h; w]))
       | "S", [v] -> intersects_checkb a b (v <> 0)
       | "C", [v] -> contains_checkb a b (v <> 0)
       | "A", n :: rest -> List.length rest = 4 * n && add_checkb a b (rects_of rest)
